@@ -696,7 +696,13 @@ fn market_eval(w: &World, m: usize, x: u128) -> Option<(u128, i128, i128)> {
 /// (v) PRICE IN THE VAULT'S FAVOUR, on clones of the world: user `u` deposits `long`/`short` into the GLV through market `m`
 /// and immediately withdraws the minted GLV tokens at unchanged prices; a second holder's redemption value is sampled
 /// before and after. Returns a description of a violation.
-fn round_trip(s: &Sid, u: u8, m: usize, long: u64, short: u64, out: &mut Out) -> Option<String> {
+fn round_trip(s: &Sid, u: u8, m: usize, long: u64, short: u64, out: &mut Out) -> Option<(bool, String)> {
+    // F-C45-orphan: all GLV tokens were redeemed (supply 0) but the GLV vault still holds the market tokens the redemptions left
+    // behind (priced in the vault's favour); the next depositor is the first depositor again and is credited the WHOLE GLV value
+    let orphan = mint_supply(&s.w.b, &s.w.glv_token) == 0 && glv_vaults(&s.w).iter().any(|x| *x > 0);
+    if orphan { out.stat("rt.orphaned_vault_state"); }
+    // what the orphaned vault is worth (maximised): the finding's predicate bounds the gain by it
+    let residue: u128 = if orphan { (0..2).map(|k| market_eval(&s.w, k, glv_vaults(&s.w)[k] as u128).map(|e| e.0).unwrap_or(0)).sum() } else { 0 };
     let mut w = s.w.clone();
     let now = s.now;
     NOW.store(now, Ordering::SeqCst);
@@ -730,7 +736,7 @@ fn round_trip(s: &Sid, u: u8, m: usize, long: u64, short: u64, out: &mut Out) ->
     // `get_glv_token_value`), are worth no more than the deposited collateral at MINIMISED prices
     if let Some(vg) = pre_deposit.glv_token_value(minted, true) {
         out.stat("rt.deposit_direction_checked");
-        if vg > value_lo(long, short) { return Some(format!("GLV deposit priced against the vault: {minted} GLV tokens are worth {vg} (maximised GLV value) for collateral worth {} at minimised prices", value_lo(long, short))); }
+        if vg > value_lo(long, short) { return Some((false, format!("GLV deposit priced against the vault: {minted} GLV tokens are worth {vg} (maximised GLV value) for collateral worth {} at minimised prices", value_lo(long, short)))); }
     }
     let mut pre_withdrawal = w.clone();
     let key = w.gw_key(&owner, &[202; 32]);
@@ -746,7 +752,7 @@ fn round_trip(s: &Sid, u: u8, m: usize, long: u64, short: u64, out: &mut Out) ->
     let x = gv_before - glv_vaults(&w)[m];
     if let (Some((vx, _, _)), Some(vg)) = (market_eval(&pre_withdrawal, m, x as u128), pre_withdrawal.glv_token_value(minted, false)) {
         out.stat("rt.withdrawal_market_token_direction_checked");
-        if vx > vg + 1 { return Some(format!("GLV withdrawal priced against the vault: {x} market tokens worth {vx} (maximised) left the vault for {minted} GLV tokens worth {vg} (minimised GLV value)")); }
+        if vx > vg + 1 { return Some((false, format!("GLV withdrawal priced against the vault: {x} market tokens worth {vx} (maximised) left the vault for {minted} GLV tokens worth {vg} (minimised GLV value)"))); }
     }
     w.close_glv_withdrawal(owner, &a).ok()?;
     out.stat("rt.completed");
@@ -756,16 +762,19 @@ fn round_trip(s: &Sid, u: u8, m: usize, long: u64, short: u64, out: &mut Out) ->
     let (out_l, out_s) = (l1 + long - l0, s1 + short - s0);
     if let Some(vg) = pre_withdrawal.glv_token_value(minted, false) {
         out.stat("rt.withdrawal_direction_checked");
-        if value_hi(out_l, out_s) > vg { return Some(format!("GLV withdrawal priced against the vault: paid {out_l}/{out_s} worth {} at maximised prices for {minted} GLV tokens worth {vg} (minimised GLV value)", value_hi(out_l, out_s))); }
+        if value_hi(out_l, out_s) > vg { return Some((false, format!("GLV withdrawal priced against the vault: paid {out_l}/{out_s} worth {} at maximised prices for {minted} GLV tokens worth {vg} (minimised GLV value)", value_hi(out_l, out_s)))); }
     }
     // and the whole round trip never gains, at ANY prices inside the published band
-    if value_hi(out_l, out_s) > value_lo(long, short) { return Some(format!("round trip gains inside the price band: paid out {out_l}/{out_s} worth {} at maximised prices for {long}/{short} worth {} at minimised prices", value_hi(out_l, out_s), value_lo(long, short))); }
+    // narrow predicate of F-C45-orphan: GLV supply 0 with a non-empty vault before the deposit, and the gain is bounded by the
+    // value of that orphaned vault
+    let orphan_gain = orphan && value_hi(out_l, out_s) <= value_hi(long, short) + residue;
+    if value_hi(out_l, out_s) > value_lo(long, short) { return Some((orphan_gain, format!("round trip gains inside the price band: paid out {out_l}/{out_s} worth {} at maximised prices for {long}/{short} worth {} at minimised prices", value_hi(out_l, out_s), value_lo(long, short)))); }
     let (vin, vout) = (value(l0, s0), value(l1, s1));
-    if vout > vin { return Some(format!("GLV deposit+withdrawal round trip returned more value than went in: {vin} -> {vout} (long {l0}->{l1}, short {s0}->{s1})")); }
+    if vout > vin { return Some((orphan_gain, format!("GLV deposit+withdrawal round trip returned more value than went in: {vin} -> {vout} (long {l0}->{l1}, short {s0}->{s1})"))); }
     if let (Some(a0), Some(a1)) = (v_other0, sample(&w)) {
         out.stat("rt.other_holder_sampled");
         // each leg floors a token amount: allow one smallest unit of each token
-        if a1 + PL + PS * 1000 < a0 { return Some(format!("the round trip of user {u} lowered the redemption value of the other holder: {a0} -> {a1}")); }
+        if a1 + PL + PS * 1000 < a0 { return Some((false, format!("the round trip of user {u} lowered the redemption value of the other holder: {a0} -> {a1}"))); }
     }
     None
 }
@@ -1042,7 +1051,11 @@ fn exec(ss: &mut BTreeMap<String, Sid>, req: &str, out: &mut Out) -> (String, bo
         "rt" => {
             if t.len() != 7 { return bad(); }
             let (Some(u), Some(m), Some(l), Some(sh)) = (t[3].parse::<u8>().ok().filter(|u| *u < NUSERS), t[4].parse::<usize>().ok().filter(|m| *m < 2), t[5].parse::<u64>().ok(), t[6].parse::<u64>().ok()) else { return bad() };
-            if let Some(v) = round_trip(s, u, m, l, sh, out) { out.oracle_fail(&v, req); }
+            match round_trip(s, u, m, l, sh, out) {
+                Some((true, v)) => out.known("F-C45-orphan", &v, req),
+                Some((false, v)) => out.oracle_fail(&v, req),
+                None => {}
+            }
             NOW.store(s.now, Ordering::SeqCst);
             (format!("ok | {}", digest(s)), false)
         }
